@@ -137,7 +137,8 @@ def client_cell(item):
             rec['digest'] = digest_report(Path(r.output_file_path).read_text())
             jp = Path(str(r.output_file_path).replace('.out', '.json'))
             rec['json'] = json_digest(jp.read_text()) if jp.exists() else 'none'
-        except RuntimeError:
+        except Exception as ex:  # noqa: BLE001  (any exception is a refusal; the type is kept for the record)
+            rec['exception'] = type(ex).__name__
             rec['signal'] = 'raised'
             rec['digest'] = 'none'
             op = Path(params.get_output_file_path())
